@@ -696,7 +696,9 @@ static void register_objects() {
   TOBJ(primitivEvaluateTensorAsFloat, float r = -77; PRIMITIV_C_STATUS st = primitivEvaluateTensorAsFloat(c(&x), &r); out = hexf(r); return st;,
        return hexf(x.to_float());)
   TOBJ(primitivEvaluateTensorAsArray, std::size_t n = 0; PRIMITIV_C_STATUS st = primitivEvaluateTensorAsArray(c(&x), nullptr, &n); if (st != OKST) return st;
-       std::vector<float> v(n + 1, -77); st = primitivEvaluateTensorAsArray(c(&x), v.data(), &n); if (v[n] != -77) out = "overrun"; v.resize(n); out += show(v); return st;,
+       std::vector<float> v(n + 1, -77); st = primitivEvaluateTensorAsArray(c(&x), v.data(), &n);
+       if (st != OKST) { out = "the size query succeeded, the read of the same tensor failed"; return OKST; }   // the two steps of one protocol must agree
+       if (v[n] != -77) out = "overrun"; v.resize(n); out += show(v); return st;,
        return show(x.to_vector());)
   TOBJ(primitivGetTensorArgmax, std::size_t n = 0; PRIMITIV_C_STATUS st = primitivGetTensorArgmax(c(&x), A.u(0), nullptr, &n); if (st != OKST) return st;
        std::vector<std::uint32_t> v(n + 1, 777); st = primitivGetTensorArgmax(c(&x), A.u(0), v.data(), &n); if (v[n] != 777) out = "overrun"; v.resize(n); out += show(v); return st;,
@@ -1082,11 +1084,17 @@ static void register_training() {
                           PP(kmb.get_submodel(std::vector<std::string>{n1, n2}); return "";)));
     std::string fa = tmp_path("ma.bin"), fb = tmp_path("mb.bin");
     std::remove(fa.c_str()); std::remove(fb.c_str());
-    obs.push_back(verdict(CC(PRIMITIV_C_STATUS st = primitivSaveModel(c(&ma), fa.c_str(), 1); if (st == OKST) out = file_bytes(fa); return st;),
+    // statistics on both sides; PRIMITIV_C_BOOL is "zero / non-zero" (define.h): the C side passes true values other than 1
+    if (pa.valid() && pb.valid()) { pa.add_stats("m", Shape({2})); pb.add_stats("m", Shape({2})); pa.stats("m").reset(7); pb.stats("m").reset(7); }
+    const PRIMITIV_C_BOOL truthy[3] = {2u, 0x100u, 0x80000000u};
+    const PRIMITIV_C_BOOL ws_save = truthy[(n1.size() + n2.size()) % 3], ws_load = truthy[(n1.size() + 2 * n2.size() + 1) % 3];
+    obs.push_back(verdict(CC(PRIMITIV_C_STATUS st = primitivSaveModel(c(&ma), fa.c_str(), ws_save); if (st == OKST) out = file_bytes(fa); return st;),
                           PP(mb.save(fb, true); return file_bytes(fb);)));
     pa.value().reset(9); pb.value().reset(9);
-    obs.push_back(verdict(CC(PRIMITIV_C_STATUS st = primitivLoadModel(c(&ma), fb.c_str(), 1, nullptr); if (st == OKST) out = show(pa) + show(qa); return st;),
-                          PP(mb.load(fb, true, nullptr); return show(pb) + show(qb);)));
+    if (pa.valid() && pa.has_stats("m")) { pa.stats("m").reset(1); pb.stats("m").reset(1); }
+    obs.push_back(verdict(CC(PRIMITIV_C_STATUS st = primitivLoadModel(c(&ma), fb.c_str(), ws_load, nullptr);
+                             if (st == OKST) out = show(pa) + show(qa) + (pa.has_stats("m") ? show(pa.stats("m").to_vector()) : "nostats"); return st;),
+                          PP(mb.load(fb, true, nullptr); return show(pb) + show(qb) + (pb.has_stats("m") ? show(pb.stats("m").to_vector()) : "nostats");)));
     obs.push_back(verdict(CC(return primitivLoadModel(c(&ma), tmp_path("does-not-exist").c_str(), 1, c(static_cast<Device *>(&E.dev2)));),
                           PP(mb.load(tmp_path("does-not-exist"), true, &E.dev2); return "";)));
     return all_same(obs); });
@@ -1138,6 +1146,21 @@ static void register_training() {
         primitivParameter_t *ps[2] = {c(&xa), c(&ya)};
         obs.push_back(verdict(CC(return primitivAddParametersToOptimizer(co, ps, A.u(2) % 3);),
                               PP(if (A.u(2) % 3 > 0) po->add(xb); if (A.u(2) % 3 > 1) po->add(yb); return "";)));
+        // a rejected array call ({valid, NULL}) registers nothing: after one more update on both sides the parameter that
+        // stood before the NULL still has its value
+        { Parameter za(Shape({2}), {3, 3}, E.dev);
+          primitivParameter_t *bad[2] = {c(&za), nullptr};
+          const PRIMITIV_C_STATUS bst = primitivAddParametersToOptimizer(co, bad, 2);
+          (void)get_message();
+          primitivResetStatus();
+          for (Parameter *p : {&pa, &pb, &qa, &qb, &ra, &rb, &xa, &xb, &ya, &yb}) if (p->valid()) p->gradient().reset(0.25f);
+          za.gradient().reset(1);
+          bool upd_ok = true;
+          try { cpp(co)->update(); po->update(); } catch (const std::exception &) { upd_ok = false; }
+          const std::vector<float> zv = za.value().to_vector();
+          if (bst != ERRST) obs.push_back("diff status: primitivAddParametersToOptimizer({p, NULL}, 2) did not fail");
+          else if (upd_ok && !(zv[0] == 3 && zv[1] == 3)) obs.push_back("diff state: the rejected primitivAddParametersToOptimizer({p, NULL}, 2) registered p (update() changed it)");
+          else obs.push_back("ok same error"); }
         // two update steps with the same gradients
         for (int step = 0; step < 2; ++step) {
           obs.push_back(verdict(CC(return primitivResetOptimizerGradients(co);), PP(po->reset_gradients(); return "";)));
